@@ -280,6 +280,11 @@ type GRPCBroker struct {
 
 	muxer grpcmux.GRPCMuxer
 
+	// listeners are the listeners handed out by Accept when not multiplexing.
+	// They are closed together with the broker, so that their Unix socket
+	// files are gone by the time Close returns.
+	listeners map[net.Listener]struct{}
+
 	sync.Mutex
 }
 
@@ -371,7 +376,23 @@ func (b *GRPCBroker) Accept(id uint32) (net.Listener, error) {
 		return nil, err
 	}
 
-	return listener, nil
+	// Track the listener until it is closed, so that Close can close it.
+	b.Lock()
+	if b.listeners == nil {
+		b.listeners = make(map[net.Listener]struct{})
+	}
+	b.listeners[listener] = struct{}{}
+	b.Unlock()
+
+	return &rmListener{
+		Listener: listener,
+		close: func() error {
+			b.Lock()
+			defer b.Unlock()
+			delete(b.listeners, listener)
+			return nil
+		},
+	}, nil
 }
 
 // AcceptAndServe is used to accept a specific stream ID and immediately
@@ -432,6 +453,18 @@ func (b *GRPCBroker) Close() error {
 	b.o.Do(func() {
 		close(b.doneCh)
 	})
+
+	// Close the brokered listeners here rather than leaving it to the
+	// AcceptAndServe goroutines: a plugin process usually exits right after
+	// its broker is closed, before those goroutines get to run, and would
+	// leave the listeners' socket files behind.
+	b.Lock()
+	listeners := b.listeners
+	b.listeners = nil
+	b.Unlock()
+	for ln := range listeners {
+		ln.Close()
+	}
 	return nil
 }
 
